@@ -37,7 +37,7 @@ def known_prefs():
                 name = prefix + k.strip()
                 kinds[name] = "boolean" if isinstance(v, bool) else "number" if (isinstance(v, (int, float)) or (isinstance(v, dict) and "real" in v)) else "string"
     walk(doc, "", 0)
-    for m in re.finditer(r'prefs\.insert\("([^"]+)"\.to_string\(\),\s*Yaml::(\w+)\(', open("/repo/src/prefs.rs", encoding="utf-8").read()):
+    for m in re.finditer(r'prefs\.insert\("([^"]+)"\.to_string\(\),\s*Yaml::(\w+)\(', open(os.path.join(mcx.SRC, "prefs.rs"), encoding="utf-8").read()):
         name, y = m.group(1), m.group(2)
         k = "boolean" if y == "Boolean" else "number" if y in ("Real", "Integer") else "string"
         if name not in kinds or k != "string":
